@@ -380,7 +380,9 @@ func aggregateRows(selectList sql.SelectList, groupBy []sql.ColumnReference, row
 
 				// update the count of this particular group key + value
 				// combination
-				countKey := fmt.Sprintf("%s%s", key, avgCol)
+				// (per select-list position: two AVGs of one column must not
+				// share a counter)
+				countKey := fmt.Sprintf("%s%s|%d", key, avgCol, colIdx)
 				if _, ok := counts[countKey]; !ok {
 					counts[countKey] = 0
 				}
